@@ -117,8 +117,10 @@ func dispatch(name string, args ...interface{}) error {
 	return nil
 }
 
-func observe(dir string, f func(name string, args []interface{})) { observers.Store(filepath.Clean(dir), f) }
-func unobserve(dir string)                                         { observers.Delete(filepath.Clean(dir)) }
+func observe(dir string, f func(name string, args []interface{})) {
+	observers.Store(filepath.Clean(dir), f)
+}
+func unobserve(dir string) { observers.Delete(filepath.Clean(dir)) }
 
 // ---------------------------------------------------------------- files
 
@@ -329,8 +331,9 @@ func describeDir(dir string) []string {
 // the exact operation: queue.Empty() compares the head position with the
 // segment file's current OS offset, which is only meaningful right after an
 // append or a read of the head block.
-//   ctx   last operation that moved the head position / file offset / segment list
-//   nseg  segment files on disk
+//
+//	ctx   last operation that moved the head position / file offset / segment list
+//	nseg  segment files on disk
 func emptySignature(saidEmpty bool, ctx string, nseg int) string {
 	offsetFresh := ctx == "append" || ctx == "append-rollover" || ctx == "current" || ctx == "failed-send"
 	if saidEmpty {
